@@ -106,7 +106,9 @@ def handle : Handler := fun input impl =>
     let s := replay perinst o
     -- the model's number of instances: every token released `margin` before the first cause, none released `margin` after it
     let (lo, hi) := kBounds perinst o
-    let k := if o.k < lo then lo else if o.k > hi then hi else o.k
+    -- (not when the harness itself was being scheduled badly: its heartbeat overslept by more than `jitterMax`)
+    let calm := decide (o.jitter ≤ jitterMax)
+    let k := if !calm then o.k else if o.k < lo then lo else if o.k > hi then hi else o.k
     let mids := (s.created.filter (·.ok)).map (·.id)
     let starterr :=
       if s.phase != .done then "loop-not-finished"
@@ -122,9 +124,13 @@ def handle : Handler := fun input impl =>
       else if a == "running" then s!"running={s.running.length}"
       else s!"{a}={b}")
     let v := judge parts perinst o
-    let v := if v == "ok" && lo != hi then "skip:inconclusive-count-inside-margin" else v
+    let v := if v == "ok" && !calm then "skip:inconclusive-harness-scheduled-badly"
+             else if v == "ok" && lo != hi then "skip:inconclusive-count-inside-margin" else v
     (mobs, v)
   | none, _ => ("-", "fail:driver:unparsable input")
-  | _, none => ("-", s!"fail:crash:unparsable observation {impl.take 120}")
+  | _, none =>
+    if impl == "HANG" then ("-", "fail:hang:the engine did not finish (Run + Wait) within the case timeout")
+    else if impl.startsWith "PANIC" then ("-", s!"fail:panic:{impl.take 200}")
+    else ("-", s!"fail:crash:unparsable observation {impl.take 120}")
 
 end Pandora.Drv.C12
